@@ -270,6 +270,12 @@ class Program:
                 ci.nested[st.name] = self._index_class(m, st, ci)
             elif isinstance(st, ast.Assign):
                 for t in st.targets:
+                    if isinstance(t, (ast.Tuple, ast.List)) and isinstance(st.value, (ast.Tuple, ast.List)) and len(t.elts) == len(st.value.elts) \
+                            and all(isinstance(x, ast.Name) for x in t.elts) and not any(isinstance(x, ast.Starred) for x in st.value.elts):
+                        for x, v in zip(t.elts, st.value.elts):     # a, b = 1, 2 at class level: element by element
+                            ci.attrs[x.id] = v
+                            ci.attr_nodes[x.id] = st
+                        continue
                     for nm in _target_names(t):
                         ci.attrs[nm] = st.value
                         ci.attr_nodes[nm] = st
